@@ -73,7 +73,7 @@ determined by the verdict of `k`, and taking the branch `pol` means that `k` acc
 theorem polarity_correct (arg e : VExpr) (pol : Bool)
     (hp : isPredTo arg e = true) (hv : isValidatorCond e pol = true) :
     ∃ k, IsValCall k e ∧ ∀ ρ : Env, ∃ x, verdict ρ e = some x ∧ (x = pol → ρ k = true) := by
-  obtain ⟨k, hk, hρ⟩ := polarity_core arg e pol hp hv
+  obtain ⟨k, hk, hρ⟩ := polarity_core true arg e pol hp hv
   refine ⟨k, hk, fun ρ => ⟨_, hρ ρ, ?_⟩⟩
   cases pol <;> cases ρ k <;> simp
 
@@ -118,17 +118,14 @@ theorem mustPass_of_unique_walk (g : Cfg) (sb db a c : Nat) (p : List Nat)
 
 /-! ### the drop decision -/
 
-/-- **validator_drop_sound_partial**: if the conditions `cs` of an edge all passed `AsPredicateTo`
-(they always do: `edgeConds_pred`) and the drop is justified by the must-pass criterion, then every
-execution from the source block to the destination block goes through a branch on a validator call
-that accepted at that moment. -/
-theorem validator_drop_sound_partial (g : Cfg) (tbl : CondTable) (sb db : Nat) (arg : VExpr)
-    (cs : List Cond) (hpred : ∀ c ∈ cs, isPredTo arg (lookupCond tbl c.2) = true)
-    (hj : dropJustified g tbl sb db cs = true)
+/-- one condition that is a validator check, passes the predicate filter and must-passes forces
+every execution through an accepting test of that very condition value. -/
+theorem drop_core (mem : Bool) (g : Cfg) (tbl : CondTable) (sb db : Nat) (arg : VExpr) (c : Cond)
+    (hp : isPredToG mem arg (lookupCond tbl c.2) = true)
+    (hval : isValidatorCond (lookupCond tbl c.2) c.1 = true) (hmp : condMustPass g sb db c = true)
     (run : Run) (hok : RunOK g tbl run) (hw : WalkFromTo g sb db (run.map (·.1))) :
-    Accepted g tbl run := by
-  simp only [dropJustified, List.any_eq_true, Bool.and_eq_true] at hj
-  obtain ⟨c, hc, hval, hmp⟩ := hj
+    ∃ a ρ k, (a, ρ) ∈ run ∧ (blockOf g a).isIf = true ∧ (blockOf g a).cond = c.2 ∧
+      IsValCall k (lookupCond tbl c.2) ∧ ρ k = true := by
   simp only [condMustPass, List.any_eq_true] at hmp
   obtain ⟨a, ha, hbt⟩ := hmp
   simp only [ifBlocksOf, List.mem_filter, Bool.and_eq_true, beq_iff_eq] at ha
@@ -139,8 +136,8 @@ theorem validator_drop_sound_partial (g : Cfg) (tbl : CondTable) (sb db : Nat) (
     simp only [hb] at hbt
     obtain ⟨l, r, hlr⟩ := (mustPassDec_iff g sb db a t).1 hbt _ hw
     obtain ⟨ρ, hmem, hstep⟩ := run_step_of_consec l run r hlr hok
-    obtain ⟨k, hk, hρ⟩ := polarity_core arg _ c.1 (hpred c hc) hval
-    refine ⟨a, ρ, k, hmem, hif, by rw [hcond]; exact hk, ?_⟩
+    obtain ⟨k, hk, hρ⟩ := polarity_core mem arg _ c.1 hp hval
+    refine ⟨a, ρ, k, hmem, hif, hcond, hk, ?_⟩
     -- the step a → t determines the outcome of the condition
     unfold branchTarget at hb
     split at hb
@@ -154,6 +151,41 @@ theorem validator_drop_sound_partial (g : Cfg) (tbl : CondTable) (sb db : Nat) (
         revert this
         cases c.1 <;> cases ρ k <;> simp <;> intro h <;> first | exact hne h | exact hne h.symm
     · cases hb
+
+/-- **validator_drop_sound_partial**: if the conditions `cs` of an edge all passed `AsPredicateTo`
+(they always do: `edgeConds_pred`) and the drop is justified by the must-pass criterion, then every
+execution from the source block to the destination block goes through a branch on a validator call
+that accepted at that moment. -/
+theorem validator_drop_sound_partial (g : Cfg) (tbl : CondTable) (sb db : Nat) (arg : VExpr)
+    (cs : List Cond) (hpred : ∀ c ∈ cs, isPredTo arg (lookupCond tbl c.2) = true)
+    (hj : dropJustified g tbl sb db cs = true)
+    (run : Run) (hok : RunOK g tbl run) (hw : WalkFromTo g sb db (run.map (·.1))) :
+    Accepted g tbl run := by
+  simp only [dropJustified, List.any_eq_true, Bool.and_eq_true] at hj
+  obtain ⟨c, hc, hval, hmp⟩ := hj
+  obtain ⟨a, ρ, k, hmem, hif, hcond, hk, hρ⟩ :=
+    drop_core true g tbl sb db arg c (hpred c hc) hval hmp run hok hw
+  exact ⟨a, ρ, k, hmem, hif, by rw [hcond]; exact hk, hρ⟩
+
+/-- **validator_drop_sound_reg**: under the register-only hypothesis (the evaluated criterion of the
+end-to-end comparison) the accepting validator call was applied to the destination value itself,
+up to tuple projection and interface boxing — not to a memory cell that may have been overwritten
+since (finding C02a). -/
+theorem validator_drop_sound_reg (g : Cfg) (tbl : CondTable) (sb db : Nat) (arg : VExpr)
+    (cs : List Cond) (hj : dropJustifiedReg g tbl sb db arg cs = true)
+    (run : Run) (hok : RunOK g tbl run) (hw : WalkFromTo g sb db (run.map (·.1))) :
+    AcceptedFor g tbl arg run := by
+  simp only [dropJustifiedReg, List.any_eq_true, Bool.and_eq_true] at hj
+  obtain ⟨c, _, ⟨hval, hmp⟩, hreg⟩ := hj
+  obtain ⟨a, ρ, k, hmem, hif, hcond, hk, hρ⟩ :=
+    drop_core false g tbl sb db arg c hreg hval hmp run hok hw
+  refine ⟨a, ρ, k, hmem, hif, ?_, hρ⟩
+  rw [hcond]
+  exact valCallOn_of _ hk (isPredToReg_tests arg _ hreg)
+
+/-- what the register-only "same data" test establishes. -/
+theorem sameData_register_only (n : Nat) (a b : VExpr) (h : sameDataG false n a b = true) :
+    SameReg a b := sameDataReg_sound n a b h
 
 /-- the conditions attached to an edge have all passed `AsPredicateTo`. -/
 theorem edgeConds_pred (g : Cfg) (tbl : CondTable) (sb si db di : Nat) (arg : VExpr) (fuel : Nat)
@@ -285,6 +317,7 @@ example : findPath loopCfg 0 3 (fuelBound loopCfg) = .found [0, 1, 3, 3] ∧
 #print axioms mustPassDec_iff
 #print axioms validator_drop_sound_partial
 #print axioms validator_drop_sound_on_edges
+#print axioms validator_drop_sound_reg
 #print axioms validator_drop_sound_false
 
 end Argot.PathCond
